@@ -622,5 +622,70 @@ fn table_three_ways<B: StarkField>(spec: &Spec<B>, cols: &[Vec<B>], threads: usi
         }
     }
     stats::probe("probe.three_table_constructions_compared");
+    // Fragment semantics with state that the closures do not overwrite. `fill` documents that
+    // `init` receives an all-zero state; here `init` writes the even registers only, and some
+    // fragments are first filled with junk and then filled again (a retry / two-pass build): the
+    // table must equal the model - every fragment's first row is `init` applied to zeros.
+    let mut refill = TraceTable::<B>::new(w, n);
+    let retry_mask = tape::s("c29.fragment.refill_mask", 1 << 8);
+    if let Err(p) = guard(|| {
+        refill.fragments(frag_len).for_each(|mut frag| {
+            let offset = frag.offset();
+            if (retry_mask >> (frag.index() % 8)) & 1 == 1 {
+                frag.fill(|state| state.iter_mut().for_each(|s| *s = B::from(7u32)), |_, state| state.iter_mut().for_each(|s| *s += B::ONE));
+            }
+            frag.fill(
+                |state| {
+                    for (j, s) in state.iter_mut().enumerate().filter(|(j, _)| j % 2 == 0) {
+                        *s = cols[j][offset];
+                    }
+                },
+                |step, state| row(offset + step + 1, state),
+            );
+        })
+    }) {
+        fail!("panic", p.site(), "TraceTable::fragments({frag_len}) with a second fill: {}", p.msg);
+    }
+    for j in 0..w {
+        for t in 0..n {
+            let want = if t % frag_len == 0 && j % 2 == 1 { B::ZERO } else { cols[j][t] };
+            if refill.get(j, t) != want {
+                fail!(
+                    "trace-tables-differ",
+                    "fragments-refilled",
+                    "cell ({j},{t}) of a table whose fragments were filled by closures that leave odd registers of the first row untouched (refill mask {retry_mask:#x}): got {:?}, the documented all-zero initial state gives {:?} (fragment length {frag_len}, threads {threads}, trace {n}x{w})",
+                    refill.get(j, t),
+                    want
+                );
+            }
+        }
+    }
+    if retry_mask != 0 {
+        stats::probe("probe.fragment_filled_twice");
+    }
     Ok(())
+}
+
+/// C06's clause "building a trace table in parallel from fragments yields the same table as filling
+/// it sequentially", on its own so that every build configuration of C06 runs it
+pub fn fragments_scenario() -> Outcome {
+    let threads = sched::begin(false);
+    let inst = draw_instance(&SMALL);
+    stats::sig(inst.class_sig() ^ threads as u64);
+    stats::nontrivial();
+    fn go<B: StarkField + ExtensibleField<2> + ExtensibleField<3> + 'static>(inst: &Instance, threads: usize) -> Outcome {
+        let info = inst.trace_info();
+        let spec = Spec::<B>::derive(&Knobs::from_meta(info.meta()), &info);
+        let mut rng = Rng::new(mix(&[inst.trace_seed, 1]));
+        let cols = build_main_columns(&spec, &mut rng);
+        let width = spec.main_width.min(64);
+        let mut narrow = spec.clone();
+        narrow.main_width = width;
+        table_three_ways::<B>(&narrow, &cols[..width], threads)
+    }
+    match crate::protocol::combo_field(inst.combo) {
+        0 => go::<F62>(&inst, threads),
+        1 => go::<F64>(&inst, threads),
+        _ => go::<F128>(&inst, threads),
+    }
 }
